@@ -134,7 +134,8 @@ def handle(case):
         return multi(case)
     SymbolGraph().clear()        # inferred instances of earlier cases must not be candidates for `let(T0, None)`
     k = case["k"]
-    elems = [X(*[bool(v[i]) if i < k else False for i in range(4)]) for v in itertools.product((0, 1), repeat=k)]
+    # one element per truth vector of the k branch conditions and of the base condition (x.one == 1), base bit last
+    elems = [X(*[bool(v[i]) if i < k else False for i in range(4)], one=v[k]) for v in itertools.product((0, 1), repeat=k + 1)]
     order = case.get("order", 0)
     if order == 1:
         elems.reverse()
@@ -168,7 +169,7 @@ def handle(case):
             if r is None:          # a true output without a visible conclusion: nothing was inferred for it
                 nones += 1
                 continue
-            key = "".join("1" if getattr(r.p, f"f{i}") else "0" for i in range(k))
+            key = "".join("1" if getattr(r.p, f"f{i}") else "0" for i in range(k)) + str(r.p.one)
             res.setdefault(key, []).append(T.index(type(r)))
         out["res"] = {key: sorted(v) for key, v in res.items()}
         # every conclusion is constructed from the values of the binding that triggered it
